@@ -4,7 +4,7 @@ From Coq Require Import List ZArith NArith Bool Lia.
 From RecordUpdate Require Import RecordSet.
 From PC.Base Require Import Assoc.
 From PC.Sup Require Import Model Monitors Tactics Sim ObsFacts Effects RelCore
-  LemC04 LemC04i LemC04s LemC04n LemC04g LemC04o LemC04l RelC04 EnC04 EnC04p.
+  LemC04 LemC04i LemC04s LemC04n LemC04g LemC04o LemC04c LemC04l RelC04 EnC04 EnC04p.
 Import ListNotations RecordSetNotations.
 
 (* ---- pc_ok holds in every reachable state ------------------------------------------------------------- *)
@@ -209,4 +209,77 @@ Proof.
   { apply forallb_forall. intros [t j] Hin. cbn. apply negb_true_iff, N.eqb_neq. intros ->.
     pose proof (in_get_nodup _ _ _ H8 Hin) as Hg. rewrite (r_nostage _ _ _ _ HR t i Hg) in Hst. discriminate. }
   rewrite Hall, Hst. reflexivity.
+Qed.
+
+(* ---- deadlock-freedom modulo "busy" -------------------------------------------------------------------- *)
+Definition R9 (s : sys) : Prop := NoDup (map fst (stage s)).
+
+Lemma keys_del {V} k (m : amap V) j : In j (map fst (del k m)) -> In j (map fst m).
+Proof.
+  induction m as [|[a v] r IH]; cbn; [tauto|]. destruct (N.eqb a k); cbn; [auto|]. intros [H|H]; auto.
+Qed.
+Lemma nodup_del {V} k (m : amap V) : NoDup (map fst m) -> NoDup (map fst (del k m)).
+Proof.
+  induction m as [|[a v] r IH]; cbn; intros H; [constructor|]. inversion H as [|? ? Hn Hr]; subst.
+  destruct (N.eqb a k); cbn; [auto|]. constructor; [|auto]. intros Hin. apply Hn. eapply keys_del; eauto.
+Qed.
+
+Lemma R9_step s te s' : R9 s -> step s te = Some s' -> R9 s'.
+Proof.
+  intros H9 H. destruct te as [th e]. unfold step in H. cbn [fst snd] in H.
+  pose proof (core_stage _ _ _ _ H) as HSt. unfold R9 in *. unfold stage_eff in HSt. rewrite ?flush_stage in HSt.
+  destruct e; try (rewrite HSt; exact H9).
+  - rewrite HSt. now apply nodup_set.
+  - destruct HSt as [-> _]. now apply nodup_set.
+  - destruct HSt as [-> _]. now apply nodup_set.
+  - destruct HSt as [-> _]. now apply nodup_del.
+  - destruct HSt as [->|[-> _]]; [exact H9|now apply nodup_set].
+Qed.
+Lemma R9_reach cs ord evs s : accept (init cs ord) evs = Some s -> R9 s.
+Proof.
+  assert (Hrun : forall evs s s', R9 s -> accept s evs = Some s' -> R9 s').
+  { induction evs0 as [|e r IH]; intros s1 s2 H9 Hacc; cbn in Hacc; [now injection Hacc as <-|].
+    destruct (step s1 e) as [s3|] eqn:Es; [|discriminate]. eapply IH; [eapply R9_step; eauto|exact Hacc]. }
+  apply Hrun. constructor.
+Qed.
+
+(* If no begun goroutine waits for something outside itself, then either nothing of Run()'s wait group is
+   outstanding (and Run() can return: run_can_return) or some goroutine has an enabled step.  What is missing
+   for a deadlock-freedom statement of the quiet supervisor is the induction along the dependency order that
+   discharges case (b) of [busy]; see notes/C04.md. *)
+Theorem progress_modulo_busy : forall cs ord evs s,
+  accept (init cs ord) evs = Some s ->
+  (forall th i x, get th (thinst s) = Some i -> get i (insts s) = Some x ->
+     busy s th i x = false \/ (pc x = IGone /\ pend (get_thread s th) <> Some RWgDone)) ->
+  wg_quiet s \/
+  exists th e s', step s (th, e) = Some s' /\
+    ((exists i, e = EBegin i /\ get th (thinst s) = None) \/
+     (exists i x, get th (thinst s) = Some i /\ get i (insts s) = Some x /\ own_event (pc x) e = true)).
+Proof.
+  intros cs ord evs s Hacc Hnb. pose proof (R8_reach _ _ _ _ Hacc) as H8. pose proof (R9_reach _ _ _ _ Hacc) as H9.
+  destruct (wg_quiet_b s) eqn:Eq; [left; now apply wg_quiet_b_spec|right].
+  unfold wg_quiet_b in Eq. apply andb_false_iff in Eq. destruct Eq as [Eq|Eq].
+  - (* a spawned goroutine has not begun *)
+    assert (Hex : exists p, In p (stage s) /\ Nat.eqb (snd (snd p)) 3 = true).
+    { clear - Eq. induction (stage s) as [|a r IH]; [discriminate|]. cbn in Eq. apply andb_false_iff in Eq.
+      destruct Eq as [Eq|Eq]; [exists a; split; [now left|now apply negb_false_iff in Eq]|].
+      destruct (IH Eq) as (p & Hin & Hp). exists p. split; [now right|exact Hp]. }
+    destruct Hex as ([i [c k]] & Hin & Hk). cbn in Hk. apply Nat.eqb_eq in Hk. subst k.
+    pose proof (in_get_nodup _ _ _ H9 Hin) as Hg.
+    destruct (spawned_can_begin _ _ _ _ _ _ Hacc Hg) as (th & s' & Hn & Hs'). exists th, (EBegin i), s'. eauto 8.
+  - (* a begun goroutine has not finished *)
+    assert (Hex : exists p, In p (thinst s) /\
+              match get (snd p) (insts s) with
+              | Some x => (match pc x with IWgDone | IGone => true | _ => false end) &&
+                          (match pend (get_thread s (fst p)) with Some RWgDone => false | _ => true end)
+              | None => true end = false).
+    { clear - Eq. induction (thinst s) as [|a r IH]; [discriminate|]. cbn in Eq. apply andb_false_iff in Eq.
+      destruct Eq as [Eq|Eq]; [exists a; split; [now left|exact Eq]|].
+      destruct (IH Eq) as (p & Hin & Hp). exists p. split; [now right|exact Hp]. }
+    destruct Hex as ([t i] & Hin & Hp). cbn [fst snd] in Hp. pose proof (in_get_nodup _ _ _ H8 Hin) as Ht.
+    destruct (get i (insts s)) as [x|] eqn:Hx; [|discriminate].
+    destruct (Hnb t i x Ht Hx) as [Hb|(Hgone & Hpe)].
+    + destruct (own_step_enabled _ _ _ _ _ _ _ Hacc Ht Hx Hb) as (e & s' & He & Hs'). exists t, e, s'. split; [exact Hs'|].
+      right. exists i, x. auto.
+    + exfalso. rewrite Hgone in Hp. cbn in Hp. destruct (pend (get_thread s t)) as [[]|]; try discriminate. now apply Hpe.
 Qed.
